@@ -1,7 +1,8 @@
 (* Properties_C11.v — property C11: reinforcement learners apply exactly their documented backup.
    Only statements, each closed by [exact <lemma>] and followed by Print Assumptions. *)
 From Coq Require Import List Arith QArith Qminmax Lqa Lia Bool.
-From AIT Require Import Base.Qx Base.Mdp C11.Model C11.Spec C11.Proofs C11.ProofsTraces C11.ProofsPS C11.ProofsFix.
+From AIT Require Import Base.Qx Base.Mdp C11.Model C11.Spec C11.Proofs C11.ProofsTraces C11.ProofsPS C11.ProofsFix C11.ProofsSetters C11.ProofsIndex C11.ProofsLink.
+From AIT Require C01.Model C10.Model.
 Import ListNotations.
 Local Open Scope Q_scope.
 
@@ -179,3 +180,102 @@ Proof.
     destruct s as [|[|s]]; try lia; vm_compute; reflexivity.
   - intros v. unfold det_at, trow, ex_det, row, nthq. cbn [P nth]. destruct v as [|x [|y v]]; cbn [dot nth]; lra.
 Qed.
+
+(* ---- DoubleQLearning at the optimum: qa = qb = Qstar (qc = 2 Qstar), deterministic transition: either
+        coin leaves both stored tables unchanged *)
+Theorem doubleq_optimal_fixpoint : forall m alpha qa qc coin s a s1,
+  wf_mdp m -> is_qstar m qa -> shape (nS m) (nA m) qa -> shape (nS m) (nA m) qc ->
+  (forall x y, qget qc x y == qget qa x y + qget qa x y) ->
+  (s < nS m)%nat -> (a < nA m)%nat -> (s1 < nS m)%nat -> det_at m s a s1 ->
+  let st' := dq_step alpha (gam m) (qa, qc) (coin, s, a, s1, nthq (row (R m) s) a) in
+  qeqv (fst st') qa /\ qeqv (snd st') qc.
+Proof. exact doubleq_optimal_fixpoint_lemma. Qed.
+Print Assumptions doubleq_optimal_fixpoint.
+
+(* ---- prioritized sweeping reproduces value iteration (C01's contraction corollary, imported):
+        at quiescence with every pair backed up, V is within e/(1-gamma) of ANY vector of Bellman
+        residual e, and Q within gamma*e/(1-gamma) of its look-ahead ... *)
+Theorem ps_reproduces_value_iteration : forall m st w e, wf_mdp m -> ps_inv m st -> ps_queue st = [] ->
+  (forall s a, (s < nS m)%nat -> (a < nA m)%nat -> In (s, a) (ps_done st)) ->
+  residual_le m w e ->
+  close (e / (1 - gam m)) (ps_v st) w /\
+  (forall s a, (s < nS m)%nat -> (a < nA m)%nat ->
+     - (gam m * (e / (1 - gam m))) <= qget (ps_q st) s a - q_of m w s a /\
+     qget (ps_q st) s a - q_of m w s a <= gam m * (e / (1 - gam m))).
+Proof. exact ps_reproduces_vi_lemma. Qed.
+Print Assumptions ps_reproduces_value_iteration.
+
+(* ... in particular of the output of C01's model of MDP::ValueIteration, whatever stopped its loop *)
+Theorem ps_reproduces_vi_run : forall m st h tol v0, wf_mdp m -> ps_inv m st -> ps_queue st = [] ->
+  (forall s a, (s < nS m)%nat -> (a < nA m)%nat -> In (s, a) (ps_done st)) ->
+  epsS < tol -> (0 < h)%nat ->
+  let '(var, v, acts, qv) := AIT.C01.Model.vi_run m h tol v0 in
+  close (gam m * var / (1 - gam m)) (ps_v st) v.
+Proof. exact ps_reproduces_vi_run_lemma. Qed.
+Print Assumptions ps_reproduces_vi_run.
+
+(* ---- OffPolicyBase::updateTraces: the index-based model with checked accesses (C10/Model.v: every
+        traces_[i], swap, pop_back and q_(s,a) is checked, size_t counter with the --i wrap) returns Ok
+        and exactly the zone-list model's result, on one call and on whole histories *)
+Theorem updateTraces_index_eq_zone : forall nS nA s a err td tol q tr,
+  shape nS nA q -> (s < nS)%nat -> (a < nA)%nat -> keys_in nS nA tr ->
+  AIT.C10.Model.updateTraces s a err td tol (q, tr) = AIT.C10.Model.Ok (update_traces s a err td tol (q, tr)) /\
+  shape nS nA (fst (update_traces s a err td tol (q, tr))) /\
+  keys_in nS nA (snd (update_traces s a err td tol (q, tr))).
+Proof. exact updateTraces_index_eq_zone_lemma. Qed.
+Print Assumptions updateTraces_index_eq_zone.
+
+Theorem updateTraces_history_index_eq_zone : forall nS nA tol ops q tr,
+  shape nS nA q -> keys_in nS nA tr ->
+  Forall (fun o : nat * nat * Q * Q => (fst (fst (fst o)) < nS)%nat /\ (snd (fst (fst o)) < nA)%nat) ops ->
+  AIT.C10.Model.updateTraces_history ops tol (q, tr) =
+  AIT.C10.Model.Ok (fold_left (fun st (o : nat * nat * Q * Q) =>
+                     update_traces (fst (fst (fst o))) (snd (fst (fst o))) (snd (fst o)) (snd o) tol st) ops (q, tr)).
+Proof. exact updateTraces_history_eq_lemma. Qed.
+Print Assumptions updateTraces_history_index_eq_zone.
+
+(* ---- SARSAL under its run-time setters (setLambda / setDiscount / setLearningRate / setTolerance in any
+        order, cached gammaL_ modelled): however lambda became 0, the next step is one-step SARSA ... *)
+Theorem sarsal_setters_lambda0 : forall nS nA alpha g lam tol ops s a s1 a1 r,
+  0 <= lam -> lam <= 1 -> 0 <= g -> g <= 1 -> tol <= 1 -> Forall sl_op_ok ops ->
+  (s < nS)%nat -> (a < nA)%nat -> (s1 < nS)%nat -> (a1 < nA)%nat ->
+  let x := fold_left sl_apply ops (sl_ctor alpha g lam tol, (qzero nS nA, [])) in
+  sl_lam (fst x) == 0 ->
+  is_update (fst (snd x)) (fst (sarsal_step_p (fst x) (snd x) (s, a, s1, a1, r))) s a
+            (one_step (sl_alpha (fst x)) (sl_g (fst x)) (fst (snd x)) s a s1 r (point_row nA a1)).
+Proof. exact sarsal_setters_lambda0_lemma. Qed.
+Print Assumptions sarsal_setters_lambda0.
+
+(* ... and after every step the traces lie in [current tolerance, 1] with unique keys *)
+Theorem sarsal_setters_trace_range : forall nS nA alpha g lam tol ops e,
+  0 <= lam -> lam <= 1 -> 0 <= g -> g <= 1 -> tol <= 1 -> Forall sl_op_ok ops ->
+  let x := fold_left sl_apply ops (sl_ctor alpha g lam tol, (qzero nS nA, [])) in
+  traces_in (sl_tol (fst x)) (snd (sarsal_step_p (fst x) (snd x) e)) /\
+  uniq_keys (snd (sarsal_step_p (fst x) (snd x) e)).
+Proof. exact sarsal_setters_trace_range_lemma. Qed.
+Print Assumptions sarsal_setters_trace_range.
+
+(* ---- OffPolicyControl (RetraceL / TreeBackupL / ImportanceSampling), REPAIRED code
+        (fixes/C11-offpolicy-trace-state.patch): the traces are cut with gamma times the documented factor,
+        built from the epsilon-greedy target probability of the pair (s,a) that was acted *)
+Theorem offctrl_trace_cut_documented : forall k alpha g lam tol eps nA st s a s1 r mu,
+  exists err td, offctrl_step k alpha g lam tol eps nA st (s, a, s1, r, mu) = update_traces s a err td tol st /\
+    (length (row (fst st) s) = nA -> (a < nA)%nat -> td == g * doc_ctrl_discount k lam eps (fst st) s a mu).
+Proof. exact offctrl_step_documented. Qed.
+Print Assumptions offctrl_trace_cut_documented.
+
+(* the code as it stands in the unrepaired tree does not: two TreeBackup steps after which the documented
+   factor is 1 (trace of (0,1) stays 1) while the legacy step zeroes that trace *)
+Theorem offctrl_legacy_trace_cut_refuted :
+  snd wit_legacy = [(0%nat, 1%nat, 0); (1%nat, 0%nat, 1)] /\
+  snd wit_fixed = [(0%nat, 1%nat, 1); (1%nat, 0%nat, 1)] /\
+  doc_ctrl_discount KTreeBackup 1 0 (fst (fold_left (offctrl_step KTreeBackup 1 1 1 0 0 2) [(0%nat, 1%nat, 1%nat, 1, 1#2)] (qzero 2 2, []))) 1 0 (1#2) == 1.
+Proof. exact offctrl_legacy_refuted_lemma. Qed.
+Print Assumptions offctrl_legacy_trace_cut_refuted.
+
+(* a setter history that brings lambda to 0 after construction with lambda = 1 *)
+Example ex_setters :
+  Forall sl_op_ok [SlStep (0%nat, 0%nat, 1%nat, 1%nat, 1); SlDiscount (1#2); SlLambda 0; SlTol (1#8)] /\
+  sl_lam (fst (fold_left sl_apply [SlStep (0%nat, 0%nat, 1%nat, 1%nat, 1); SlDiscount (1#2); SlLambda 0; SlTol (1#8)]
+                          (sl_ctor (1#2) (3#4) 1 (1#64), (qzero 2 2, [])))) == 0.
+Proof. split; [repeat constructor; cbn; lra| vm_compute; reflexivity]. Qed.
